@@ -654,6 +654,14 @@ def judge_batch(bno, specs, insts, problems, stats, heap_before, heap_live, tb, 
                     iid, sp["action"], fl, "before the thread issued exit (line %d)" % inst.t_exit if inst.t_exit is not None else "of a thread that never issued exit")))
             if sp["panic"] and inst.box:
                 leaked_expect.append(inst.box[0])
+        ca = getattr(inst, "clone_args", None)
+        if inst.tsm and ca and len(ca) > 3 and inst.tid is not None:
+            off = ca[3] - inst.tsm[0]
+            if not (0 <= off and off + 4 <= inst.tsm[1]) or ca[3] % 4:
+                bad.append(("layout", "id %d: the clear-tid address %#x the thread was cloned with is not an aligned word inside its shared block %#x+%d" % (
+                    iid, ca[3], inst.tsm[0], inst.tsm[1])))
+            elif off != 4:
+                bad.append(("layout-model", "id %d: the exit futex word is at offset %d of the shared block, the model's layout arithmetic puts it at 4" % (iid, off)))
         if inst.tsm and sp["class"] in classes:
             want = layout(*classes[sp["class"]])
             if (inst.tsm[1], inst.tsm[2]) != want[:2]:
@@ -899,6 +907,7 @@ def account(ctx, items, exe, pid_kinds=None, inject=None):
         # `model-map`: the observation could not be mapped onto the model's events (an allocation / futex operation the mapping
         # does not know); `layout-model`: the shared block has another (not unsound) size than the model computes.
         # Both are a broken correspondence, not a failing input: reported as such, below.
+        mmk = sorted({k for k, _ in it["judge"] if k in ("model-map", "layout-model")})
         mm = [w for k, w in it["judge"] if k in ("model-map", "layout-model")]
         kinds = [k for k in kinds if k not in ("model-map", "layout-model")]
         if pid_kinds is not None:
@@ -911,7 +920,7 @@ def account(ctx, items, exe, pid_kinds=None, inject=None):
             continue
         if mm and not kinds:
             nbad += 1
-            ctx.violation({"kind": "model-map"}, dict(replay_of(it, it["script"], exe, inject), why=mm[:4],
+            ctx.violation({"kind": mmk[0]}, dict(replay_of(it, it["script"], exe, inject), why=mm[:4],
                           note="every oracle is satisfied on this run; the observed operations could not be mapped onto the model's events"), no_input=True)
             continue
         why = check_model(it)
